@@ -17,7 +17,7 @@ DESCRIPTION = {
              "subprotocol from the client's list, extensions subset of the offer, onOpen exactly once; mutated => never open, an HTTP error and/or a dropped transport; no "
              "exception leaves dataReceived/data_received or reaches the loop; the verdict is the same under every segmentation; an endpoint that opened on arbitrary bytes "
              "must have received a request that an independent validator accepts.  Thorough tier adds an atheris (libFuzzer) target over (d) for both roles.  Origin allow-lists have 1-4 entries in any order; besides a fixed list of hostile origins, origins are constructed from each configured entry (exact, port extended/truncated, host extended left/right, other scheme, port omitted) and judged by an independent whole-string matcher.  One non-ASCII octet is placed inside every element either side judges (digest at every position, Upgrade, Connection, subprotocol, extension, status code; key, version).  The interop matrix varies all four offer parameters and server policies asking for no-context-takeover / a window limit.  Non-trivial = exactly one corrupted required element, arbitrary bytes containing CRLFCRLF, "
-             "or an origin adjacent to an allowed pattern; distinct by (mutation, element, config digest)."),
+             "or an origin adjacent to an allowed pattern; distinct by (mutation, element, config digest). The junk / near-valid octets also go to a server configured to serve the Flash socket policy file (serveFlashSocketPolicy): a policy-file request is answered and dropped, never opened."),
     "assumptions": ["duplicate Upgrade/Connection headers, HTTP versions above 1.1 and non-canonical base64 padding bits are don't-cares (must not crash, segmentation-independent)"],
 }
 
